@@ -79,3 +79,16 @@ def varied_opts(rng, tier, **kw):
 
 def witness_model(model):
     return {"text": adapters.model_text(model)}
+
+
+def with_twins(rng, case, p=0.3):
+    """attach hostile twins of case['recipe'] (run after the base in the same process)"""
+    if rng.random() < p:
+        tw = recipes.twins(case["recipe"], rng, n=rng.randint(1, 2))
+        if tw:
+            case["twins"] = tw
+    return case
+
+
+def recipes_of(case):
+    return [case["recipe"]] + list(case.get("twins", []))
